@@ -37,7 +37,8 @@ type sfCall struct {
 	Result   string
 	Count    int // generic group only
 	Sess     *sessions.SessionState
-	SessOut  string // session fields after the call
+	SessOut  string                 // session fields after the call
+	Redeemed *sessions.SessionState // the object a Redeem call returned
 }
 
 type sfExecution struct {
@@ -84,6 +85,9 @@ func sfOracle(tr *sfTrace, s *sched.Sched, wrappers bool) (out []sfProblem) {
 	// F1: at most one execution per (endpoint, subject) at a time
 	for i, a := range tr.execs {
 		for _, b := range tr.execs[i+1:] {
+			if a.Endpoint == "Redeem" {
+				continue // the wrappers hand Redeem through uncoalesced; only wrong merging is judged for it
+			}
 			if key(a.Endpoint, a.Subject) == key(b.Endpoint, b.Subject) && a.Start < b.End && b.Start < a.End {
 				add("F1-concurrent-executions", fmt.Sprintf("two executions of %s(%s) overlap", a.Endpoint, a.Subject))
 				continue
@@ -162,6 +166,17 @@ func sfOracle(tr *sfTrace, s *sched.Sched, wrappers bool) (out []sfProblem) {
 			if !okSess {
 				add("W2-follower-stale-session/"+c.Endpoint, fmt.Sprintf("%s: the merged caller's session is {%s}, the caller whose call ran has {%s}", c.Endpoint, c.SessOut, want))
 				continue
+			}
+		}
+	}
+	if wrappers {
+		// callers go on to write into the session they were handed (the callback stamps the request's
+		// host into it): two callers must never be handed one and the same object
+		for i, a := range tr.calls {
+			for _, b := range tr.calls[i+1:] {
+				if a.Redeemed != nil && a.Redeemed == b.Redeemed {
+					add("redeem-shared-session-object", fmt.Sprintf("Redeem(%s) by threads %d and %d returned one shared *SessionState: what one caller writes into it, the other sees", a.Subject, a.Thread, b.Thread))
+				}
 			}
 		}
 	}
@@ -298,6 +313,22 @@ func (f *fakeInner) begin(endpoint, subject string) (*sfExecution, int) {
 	return e, f.n
 }
 
+// redeem answers a code: every code belongs to another user's login
+func (f *fakeInner) redeem(redirectURL, code string) (*sessions.SessionState, error) {
+	e, id := f.begin("Redeem", code+" via "+redirectURL)
+	var s *sessions.SessionState
+	var err error
+	if f.x.Choose("redeem-outcome", 2) == 0 {
+		s = &sessions.SessionState{Email: "owner-of-" + code + "@example.com", AccessToken: fmt.Sprintf("token#%d-for-%s", id, code), RefreshToken: "refresh-for-" + code}
+		e.Result = "session for " + s.Email + " " + s.AccessToken
+	} else {
+		err = fmt.Errorf("error#%d", id)
+		e.Result = "error " + err.Error()
+	}
+	e.End = f.tr.tick()
+	return s, err
+}
+
 // proxy-side inner provider
 type fakeProxyInner struct{ *fakeInner }
 
@@ -307,8 +338,8 @@ func (f fakeProxyInner) Data() *proxyp.ProviderData {
 		ValidateURL: &url.URL{Scheme: "https", Host: "sso-auth.test", Path: "/idp/validate"}, RefreshURL: &url.URL{Scheme: "https", Host: "sso-auth.test", Path: "/idp/refresh"},
 		RedeemURL: &url.URL{Scheme: "https", Host: "sso-auth.test", Path: "/idp/redeem"}, ProfileURL: &url.URL{Scheme: "https", Host: "sso-auth.test", Path: "/idp/profile"}}
 }
-func (f fakeProxyInner) Redeem(string, string) (*sessions.SessionState, error) {
-	return nil, errors.New("unused")
+func (f fakeProxyInner) Redeem(redirectURL, code string) (*sessions.SessionState, error) {
+	return f.redeem(redirectURL, code)
 }
 func (f fakeProxyInner) ValidateGroup(string, []string, string) ([]string, bool, error) {
 	return nil, false, errors.New("unused")
@@ -371,8 +402,8 @@ func (f fakeAuthInner) SetStatsdClient(*statsd.Client)     {}
 func (f fakeAuthInner) Data() *authp.ProviderData          { return &authp.ProviderData{} }
 func (f fakeAuthInner) GetSignInURL(string, string) string { return "" }
 func (f fakeAuthInner) Stop()                              {}
-func (f fakeAuthInner) Redeem(string, string) (*sessions.SessionState, error) {
-	return nil, errors.New("unused")
+func (f fakeAuthInner) Redeem(redirectURL, code string) (*sessions.SessionState, error) {
+	return f.redeem(redirectURL, code)
 }
 func (f fakeAuthInner) ValidateSessionState(s *sessions.SessionState) bool {
 	e, _ := f.begin("ValidateSessionState", s.AccessToken)
@@ -464,6 +495,9 @@ func allowedSuffix(allowed []string) string {
 }
 
 func (o sfOp) subject() string {
+	if o.Endpoint == "Redeem" {
+		return o.Token + " via " + o.Email
+	}
 	if o.Allowed != nil {
 		return o.Token + allowedSuffix(o.Allowed)
 	}
@@ -560,6 +594,21 @@ func sfWrapExecute(x *explore.Exec, sc sfWrapScenario) (*sfTrace, *sched.Sched) 
 							g = nil
 						}
 						c.Result = fmt.Sprintf("%v/%v", g, err)
+					case o.Endpoint == "Redeem":
+						// Token = the code, Email = the redirect URL of the flow
+						var rs *sessions.SessionState
+						var err error
+						if pw != nil {
+							rs, err = pw.Redeem(o.Email, o.Token)
+						} else {
+							rs, err = aw.Redeem(o.Email, o.Token)
+						}
+						if err != nil {
+							c.Result = "error " + err.Error()
+						} else {
+							c.Result = "session for " + rs.Email + " " + rs.AccessToken
+							c.Redeemed = rs
+						}
 					case aw != nil && o.Endpoint == "Revoke":
 						c.Result = fmt.Sprint(aw.Revoke(c.Sess))
 					case aw != nil && o.Endpoint == "RefreshAccessToken":
@@ -597,6 +646,7 @@ func sfScenarios(c *fw.Ctx) ([]sfGroupScenario, []sfWrapScenario) {
 	r := func(ep, tok string) sfOp { return sfOp{Endpoint: ep, Token: tok} }
 	q := func(ep, email string, g ...string) sfOp { return sfOp{Endpoint: ep, Email: email, Groups: g} }
 	nr := func(o sfOp) sfOp { o.NoRefresh = true; return o }
+	rd := func(code, redirect string) sfOp { return sfOp{Endpoint: "Redeem", Token: code, Email: redirect} }
 	up := func(o sfOp, w int, allowed ...string) sfOp { o.Wrapper, o.Allowed = w, allowed; return o }
 	wraps := []sfWrapScenario{
 		{Name: "proxy/two-upstreams-same-token", Side: "proxy", Ops: [][]sfOp{{up(v("T"), 0, "admins")}, {up(v("T"), 1, "staff")}, {up(v("T"), 0, "admins")}}, Bound: b3},
@@ -604,6 +654,8 @@ func sfScenarios(c *fw.Ctx) ([]sfGroupScenario, []sfWrapScenario) {
 		{Name: "proxy/validate-without-refresh-token", Side: "proxy", Ops: [][]sfOp{{nr(v("T"))}, {nr(v("U"))}, {nr(v("T"))}}, Bound: b3},
 		{Name: "auth/revoke-without-refresh-token", Side: "auth", Ops: [][]sfOp{{nr(r("Revoke", "T"))}, {nr(r("Revoke", "U"))}, {nr(r("Revoke", "T"))}}, Bound: b3},
 		{Name: "auth/validate-without-refresh-token", Side: "auth", Ops: [][]sfOp{{nr(v("T"))}, {nr(v("U"))}}, Bound: -1},
+		{Name: "proxy/redeem", Side: "proxy", Ops: [][]sfOp{{rd("code-1", "https://a.sso.test/oauth2/callback")}, {rd("code-2", "https://a.sso.test/oauth2/callback")}, {rd("code-1", "https://a.sso.test/oauth2/callback")}}, Bound: b3},
+		{Name: "auth/redeem", Side: "auth", Ops: [][]sfOp{{rd("code-1", "https://sso-auth.test/idp/callback")}, {rd("code-2", "https://sso-auth.test/idp/callback")}, {rd("code-1", "https://sso-auth.test/idp/callback")}}, Bound: b3},
 		{Name: "proxy/validate-same-token", Side: "proxy", Ops: [][]sfOp{{v("T")}, {v("T")}, {v("U")}}, Bound: b3},
 		{Name: "proxy/validate-grace", Side: "proxy", Grace: true, Ops: [][]sfOp{{v("T")}, {v("T")}}, Bound: -1},
 		{Name: "proxy/refresh", Side: "proxy", Ops: [][]sfOp{{r("RefreshSession", "R")}, {r("RefreshSession", "R")}, {r("RefreshSession", "S")}}, Bound: b3},
